@@ -151,6 +151,12 @@ Section Tab.
     pose proof (v_act_lt tau (p / 3) Ht H). pose proof (Nat.mod_upper_bound p 3). lia.
   Qed.
 
+  Lemma tshift_tab_div tau p : tshift_tab tau p / 3 = act tau (p / 3).
+  Proof.
+    unfold tshift_tab. rewrite Nat.mul_comm, Nat.div_add_l by lia.
+    rewrite (Nat.div_small (p mod 3) 3) by (apply Nat.mod_upper_bound; lia). lia.
+  Qed.
+
   Lemma atoms_tshift tau t : atoms_of (map (tshift_tab tau) t) = shift act tau (atoms_of t).
   Proof.
     unfold atoms_of, shift. rewrite !map_map. apply map_ext. intros p. unfold tshift_tab.
@@ -178,6 +184,11 @@ Section Tab.
   Proof. intros Ht. apply omin_le_orbit; grp. Qed.
   Lemma indep_unique_t i j t : i < N -> In i (indep_atoms nlp N act) -> In j (indep_atoms nlp N act) -> t < nlp -> act t i = j -> i = j.
   Proof. intros Hi Hii Hij Ht E. apply (indep_unique_in_orbit nlp N act) with (t := t); grp. Qed.
+
+  Lemma omin_le_self_t i : i < N -> omin nlp act i <= i.
+  Proof. intros Hi. apply omin_le_self with (N := N); grp. Qed.
+  Lemma omin_in_orbit_t i : i < N -> exists t, t < nlp /\ omin nlp act i = act t i.
+  Proof. intros Hi. apply omin_in_orbit with (N := N); grp. Qed.
 
   Lemma orbit_nodup_t i : i < N -> NoDup (orbit nlp act i).
   Proof. intros Hi. apply orbit_nodup with (N := N); grp. Qed.
